@@ -315,6 +315,29 @@ pub fn cache_cases(rng: &mut Rng, thorough: bool) -> Vec<RsCase> {
             out.push(RsCase { tag: format!("large-args-one-difference len{}", len), rules: vec![Expr::Vec(calls)], facts: Value::None, env: mk_env([true, true, false], [1, 1, 1], &[vec![], vec![], vec![]]), evals: 1 });
         }
     }
+    // (b3) a failing call under every built-in, under access steps and in the operand positions of the lazy operators: the
+    //      failure of a user function surfaces (naming the function) through whatever surrounds the call
+    {
+        let mut rules = vec![];
+        let boom = || call("k", lit(Value::Int(1)));
+        for u in UN_OPS {
+            rules.push(mk_un(u, boom()));
+            rules.push(mk_un(u, idxk(boom(), "name")));
+            rules.push(mk_un(u, idxn(idxk(boom(), "tags"), 0)));
+        }
+        for b in BIN_OPS.iter().chain(LAZY_BIN.iter()) {
+            rules.push(mk_bin(b, boom(), lit(Value::None)));
+            rules.push(mk_bin(b, lit(Value::Bool(true)), boom()));
+            rules.push(mk_bin(b, lit(Value::Bool(false)), idxk(boom(), "a")));
+        }
+        rules.push(iff(mk_un("some", idxk(boom(), "name")), lit(Value::Int(1)), lit(Value::Int(2))));
+        rules.push(iff(boom(), lit(Value::Int(1)), lit(Value::Int(2))));
+        rules.push(Expr::Vec(vec![lit(Value::Int(1)), boom()]));
+        rules.push(emap(vec![("a", boom())]));
+        rules.push(call("g", boom()));
+        rules.push(call("g", Expr::Vec(vec![idxk(boom(), "a")])));
+        out.push(RsCase { tag: "failure-wrappers".into(), rules, facts: Value::None, env: EnvSpec { syms: vec![], fns: vec![FnSpec::new("g", true, FnKind::Id), FnSpec::new("k", false, FnKind::Fail)] }, evals: 1 });
+    }
     // (c) random histories
     let n = if thorough { 30000 } else { 3000 };
     for _ in 0..n {
